@@ -15,7 +15,9 @@ Case(t, kf) ==
    dup |-> Pick(s, DuplicatesDef(s, idx)), uniq |-> Pick(s, UniqueDef(s, idx)),
    dist |-> Pick(s, DistinctDef(s, idx)), counts |-> CountsDef(s, idx),
    isunique |-> IsUniqueDef(s, idx),
-   callowed |-> Pick(s, ConflictAllowed(s, idx, 0)), cscan |-> Pick(s, ConflictScan(s, idx, 0))]
+   callowed |-> Pick(s, ConflictAllowed(s, idx, 0)), cscan |-> Pick(s, ConflictScan(s, idx, 0)),
+   \* conflicts(..., missing=1): value 1 is the "missing" marker instead of None
+   callowed1 |-> Pick(s, ConflictAllowed(s, idx, 1)), cscan1 |-> Pick(s, ConflictScan(s, idx, 1))]
 ASSUME \A t \in Tabs, kf \in {"k", "kv", "none"} : SumSeq(Case(t, kf).counts) = Len(t)
 ASSUME ndJsonSerialize(IOEnv.OUT, SetToSeq({Case(t, kf) : t \in Tabs, kf \in {"k", "kv", "none"}}))
 VARIABLE x
